@@ -87,6 +87,14 @@ CHECKS.update({
          "stop-point injection: stop()/shutdown() after a drawn reactor event of each situation surveyed in a stop-free baseline run (also from inside the processor and from the start errback), then restart; monitors on processor calls, client writes, delayed calls and the start/shutdown Deferreds",
          "After stop() returned: no processor call, no Fetch/ListOffsets/OffsetFetch/OffsetCommit frame written until the restart, no delayed call bound to the consumer; stop() returns normally; the start Deferred fires exactly once with the offset (or with an earlier unrecoverable failure, never with the echo of stop's own cancellations); shutdown's Deferred fires once, no processor call begins after it was requested, committed == processed == coordinator's stored offset on success; a restarted consumer delivers again. Ten defects found here were fixed in /repo; one is listed as known.",
          "situations classified from Consumer attributes (stratification only); the C02 stream oracle stays on", "3/C13"),
+ "C03": ("consumer-e2e", "fault_enumeration",
+         "offline checker over the recorded commit history (every OffsetCommit the coordinator received vs. the processor-completion events before it) plus crash-point enumeration: the process is killed after the k-th client write for every k (sampled above 60 writes), a fresh consumer resumes from OFFSET_COMMITTED and its first delivery is compared with the coordinator's stored offset",
+         "Every committed value equals the offset of the last message whose processing had completed when the commit was issued (never behind, never ahead, never re-sent once acknowledged); last_committed_offset is an acknowledged value at every quiescent point; after a kill at any write, the fresh consumer's first delivered offset is stored+1 (the next existing offset) so that at most the un-committed tail is redelivered and nothing is skipped. One defect (processing continues after a processor failure, so a later commit covers the failed message) is listed as known.",
+         "process death = every connection severed and every delayed call dropped at once; restarts in the generated scenarios resume from the committed offset", "3/C03"),
+ "C14": ("consumer-e2e", "fault_enumeration",
+         "failure/success words over {retriable error, timeout, OffsetOutOfRange, success} applied to the consumer's successive fetch or offset-lookup requests on a zero-latency network (all words up to length 7 in thorough), monitors on request times at the broker, the start Deferred and delivered messages; buffer-growth scenarios with record sizes straddling the initial buffer, 1 MiB and the maximum",
+         "Gap between a failure becoming known and the next request: the initial delay after a success, then growing geometrically by one constant factor, never beyond the maximum; with a limit n the start Deferred has failed by the n-th consecutive failure and nothing is sent afterwards; without one the consumer is still retrying after 40 failures; OffsetOutOfRange is followed by a ListOffsets for the policy's position and the fetch resumes at its answer, or fails the start Deferred with OffsetOutOfRangeError and stops fetching when no policy is set; max_bytes for an oversized record grows x16 up to 1 MiB then x2, clipped to the maximum; the record is delivered when the maximum suffices and ConsumerFetchSizeTooSmall is reported (nothing skipped) when it does not.",
+         "the factor is read from the first unsaturated pair of delays, not assumed; the start Deferred failing before the limit is allowed", "3/C14"),
 })
 
 PENDING = {}
